@@ -181,6 +181,9 @@ func oneFactorLayouts() []gen.Layout {
 	mod(func(l *gen.Layout) { l.Multi = true; l.OpenGap = 2 })
 	mod(func(l *gen.Layout) { l.Multi = true; l.OpenGap = 1 })
 	mod(func(l *gen.Layout) { l.GapTab = true })
+	mod(func(l *gen.Layout) { l.EmptyPad = true })
+	mod(func(l *gen.Layout) { l.EmptyPad = true; l.Multi = true })
+	mod(func(l *gen.Layout) { l.QuoteNames = true; l.Pad = 2 })
 	mod(func(l *gen.Layout) { l.Multi = true; l.DashStyle = 2 })
 	mod(func(l *gen.Layout) { l.Multi = true; l.DashStyle = 3 })
 	mod(func(l *gen.Layout) { l.Multi = true; l.DashStyle = 2; l.NL = "\r\n" })
